@@ -381,7 +381,7 @@ fn c18(ctx: &mut Ctx, w: &World, st: &St, t: &PTx, _params: &Params, fin: &Finis
         match p {
             0 => needs.push((w.native[0].hash().to_bytes(), false, "mint policy 0".into())),
             1 => needs.push((w.plutus[1].hash().to_bytes(), false, "mint policy 1".into())),
-            3 => needs.push((w.plutus[0].hash().to_bytes(), false, "mint policy 3".into())),
+            3 => needs.push((w.plutus[0].hash().to_bytes(), st.m.ref_plutus.contains(&0), "mint policy 3".into())),
             _ => {}
         }
     }
@@ -402,6 +402,7 @@ fn c18(ctx: &mut Ctx, w: &World, st: &St, t: &PTx, _params: &Params, fin: &Finis
             3 => needs.push((w.plutus[1].hash().to_bytes(), false, "withdrawal 3".into())),
             5 => needs.push((w.plutus[0].hash().to_bytes(), false, "withdrawal 5".into())),
             6 => needs.push((w.native[1].hash().to_bytes(), false, "withdrawal 6".into())),
+            7 => needs.push((w.plutus[2].hash().to_bytes(), true, "withdrawal 7".into())),
             _ => {}
         }
     }
@@ -410,6 +411,7 @@ fn c18(ctx: &mut Ctx, w: &World, st: &St, t: &PTx, _params: &Params, fin: &Finis
             3 => needs.push((w.native[0].hash().to_bytes(), false, "vote 3".into())),
             4 => needs.push((w.plutus[2].hash().to_bytes(), false, "vote 4".into())),
             5 | 6 => needs.push((w.plutus[0].hash().to_bytes(), false, format!("vote {}", i))),
+            7 => needs.push((w.plutus[2].hash().to_bytes(), true, "vote 7".into())),
             _ => {}
         }
     }
@@ -474,7 +476,7 @@ fn c18(ctx: &mut Ctx, w: &World, st: &St, t: &PTx, _params: &Params, fin: &Finis
     let plutus_uses = st.m.inputs.iter().filter(|(i, _)| matches!(w.utxos[*i].0.owner, Owner::Plutus(_))).count()
         + st.m.mint.keys().map(|k| k.0).collect::<BTreeSet<_>>().iter().filter(|p| **p == 1 || **p == 3).count()
         + st.m.certs.iter().filter(|k| w.certs[**k].script == Some(2)).count()
-        + st.m.wds.iter().filter(|i| **i == 3 || **i == 5).count()
+        + st.m.wds.iter().filter(|i| **i == 3 || **i == 5 || **i == 7).count()
         + st.m.votes.iter().filter(|i| **i >= 4).count()
         + st.m.proposals.iter().filter(|i| **i >= 3).count();
     if t.redeemers.len() != plutus_uses {
